@@ -60,6 +60,8 @@ inductive Clause
   | receiverFilter       -- the receiver processed a message OLDER than its recorded position (or moved the position on it)
   | receiverAcceptsNotOlder  -- a message with ts ≥ the recorded position (equal is not older) was dropped / not recorded
   | ackMonotone          -- a log-position acknowledgement moved the position backwards or not to max
+  | restartKeepsPositions  -- a new sender process came up with other endpoint positions than the old one had: what the peer
+                           -- confirmed is replayed again (local position lost) / old messages are accepted again (remote position lost)
   deriving DecidableEq, Repr
 
 def Clause.name : Clause → String
@@ -67,6 +69,7 @@ def Clause.name : Clause → String
   | .replayConfirmed => "replay_confirmed" | .replayVisible => "replay_visible" | .replayComplete => "replay_complete"
   | .cleanupSafe => "cleanup_safe" | .receiverFilter => "receiver_filter"
   | .receiverAcceptsNotOlder => "receiver_accepts_not_older" | .ackMonotone => "ack_monotone"
+  | .restartKeepsPositions => "restart_keeps_positions"
 
 /-- A logged event, where its frame ends in its file, and whether its bytes are (still) intact. -/
 structure GEntry where
@@ -232,7 +235,9 @@ def specStep (sp : SpecSt) (st : Step) : Option Clause × SpecSt :=
     (bad, sp')
   | .damage d => (none, applyDamage d sp')
   | .drop => (none, { sp' with dropped := true })
-  | .restart => (none, { sp' with conn := [false, false, false, false, false, false] })
+  | .restart =>
+    -- the positions are state attributes (endpoint.ti:23-24): the new process has them from the state file
+    (if st.pos != sp.pos then some .restartKeepsPositions else none, { sp' with conn := [false, false, false, false, false, false] })
 
 /-! ## confirmations (F-C12c)
 
@@ -350,6 +355,56 @@ def syncTrace : SyncSt → List SyncEv → Nat → Option (Nat × SyncBad)
     match syncStep s e with
     | (some b, _) => some (i, b)
     | (none, s') => syncTrace s' r (i + 1)
+
+/-! ## events persisted after a crash-restart (F-C12g)
+
+  An event the RUNNING sender persists for a disconnected endpoint must be replayed to it — also when an earlier process
+  died while writing `current` and left a torn last frame there.  (The statement's last sentence excuses what a damage
+  DESTROYED, not what a healthy process writes afterwards.)  Judged on its own, over the events appended to `current`
+  behind a frame that a crash / truncation (no foreign bytes) tore: each of them that the peer still wants must be in
+  the next undamaged replay.  Any other damage switches the clause off for the rest of the trace. -/
+
+structure TornSt where
+  tornOpen : Bool := false            -- `current` ends (or ended, before the appends) in a frame torn by a crash
+  behind : List (Nat × Int) := []     -- (id, ts) of the events appended behind it
+  tainted : Bool := false
+  deriving Repr
+
+/-- Clause `persisted_after_crash_replayed` on one observed step (`sp`: the ghost state BEFORE the step): (ok, next). -/
+def tornStep (sp : SpecSt) (t : TornSt) (st : Step) : Bool × TornSt :=
+  match st.ev with
+  | .damage d =>
+    if d.junk || d.file.isSome then (true, { t with tainted := true })
+    else
+      let k := min d.k sp.curSize
+      let lost := decide (d.k < sp.curSize)
+      let torn := lost && !(k == 0 || sp.cur.any (fun g => g.endOff == k))
+      -- what a further crash cut off is gone for a reason the property accepts
+      let behind := if lost then t.behind.filter (fun key => !sp.cur.any (fun g => (g.e.id, g.e.ts) == key && decide (g.endOff > k)))
+                    else t.behind
+      (true, { t with tornOpen := t.tornOpen || torn, behind := behind })
+  | .relay now id _ frameLen newFile =>
+    let t1 := if t.tornOpen && frameLen.isSome then { t with behind := t.behind ++ [(id, now)] } else t
+    (true, if newFile.isSome then { t1 with tornOpen := false } else t1)
+  | .rotate (some _) => (true, { t with tornOpen := false })
+  | .replay now p out none =>
+    if t.tainted then (true, t)
+    else
+      let pos := lpos sp.pos p
+      let dur := sp.durs.getD p 0
+      let msgs := outMsgs out
+      let wanted := (ghostOrder sp).filter (fun g => t.behind.contains (g.e.id, g.e.ts) && decide (g.e.ts > pos) &&
+        may sp.dropped p g.e.sec && dur != 0 && (decide (dur < 0) || decide (g.e.ts ≥ now - dur)))
+      (wanted.all (fun g => msgs.contains (g.e.id, g.e.ts)), t)
+  | _ => (true, t)
+
+/-- The clause over a whole trace (ghost state advanced by `specStep`): index of the first failure. -/
+def tornTrace : SpecSt → TornSt → List Step → Nat → Option Nat
+  | _, _, [], _ => none
+  | sp, t, st :: r, i =>
+    match tornStep sp t st with
+    | (false, _) => some i
+    | (true, t') => tornTrace (specStep sp st).2 t' r (i + 1)
 
 /-- The whole trace: the first violated clause with the index of the step. -/
 def specTrace : SpecSt → List Step → Nat → Option (Nat × Clause)
